@@ -6,6 +6,7 @@ CONSTANTS
   FormatNames <- Names
   Files <- FileTable
   Lib <- LibTable
+  ReaderFiles <- ReaderFileSet
   StdinContent = "cy"
   StdoutKinds = {"pipe"}
 INVARIANT CliInv
